@@ -206,7 +206,23 @@ class _Builder(object):
                 sizer_use[sizer] = sizer_use.get(sizer, 0) + 1
                 members.append(Member(mn, t, EXTARR, sizer=sizer))
                 stiff = max(stiff, DYNAMIC)
-        # a greedy / unlimited member must be last; inserted sizers never go after the end, so fine
+        if 'raw_part_alignment_decrease' in self.o.avoid:
+            from .common import struct_is_x8_shaped
+            while len(members) > 1:
+                probe = Schema(self.decls + [Struct(name, members)])
+                if not struct_is_x8_shaped(RefWire(probe), probe.by_name[name]):
+                    break
+                dropped = members.pop()
+                if dropped.kind == EXTARR and not any(m.sizer == dropped.sizer for m in members):
+                    members = [m for m in members if m.name != dropped.sizer]
+            stiff = FIXED
+            for m in members:
+                if m.kind == GREEDY:
+                    stiff = UNLIMITED
+                elif m.kind in (DYNARR, EXTARR):
+                    stiff = max(stiff, DYNAMIC)
+                elif m.kind == PLAIN and m.type not in NUMERIC:
+                    stiff = max(stiff, self.stiff[m.type])
         self.decls.append(Struct(name, members))
         self.vec[name] = any(m.kind == LIMARR or self.vec.get(m.type, False) for m in members)
         self.stiff[name] = stiff
